@@ -299,3 +299,67 @@ func TestGocvReplay(t *testing.T) {
 		},
 	})
 }
+
+// ---------------------------------------------------------------------------
+// driver: (*genericTask).run — a cancel message while a request is pending (C10).  The failing step is "cancel
+// message received, loop continues": the replay puts a real generic task into that state (one request pending) and
+// asks it to cancel.
+
+func init() {
+	registerReplay(replayDriver{
+		name: "bpmn.genericTask cancel with a pending request",
+		match: func(ob *Oblig) bool {
+			return strings.HasPrefix(ob.Func, "bpmn.(*genericTask).run") && strings.Contains(ob.Name, "interrupt-cancels-a-pending-request")
+		},
+		build: func(ob *Oblig, m map[string]string) (string, string, bool) {
+			src := fmt.Sprintf(`package bpmn
+
+import (
+	"context"
+	"testing"
+	"time"
+
+	"github.com/olive-io/bpmn/schema"
+	"github.com/olive-io/bpmn/v2/pkg/data"
+	"github.com/olive-io/bpmn/v2/pkg/tracing"
+)
+
+// generated by gocv for obligation %s
+func TestGocvReplay(t *testing.T) {
+	ctx, stop := context.WithCancel(context.Background())
+	defer stop()
+	tracer := tracing.NewTracer(ctx)
+	traces := tracer.SubscribeChannel(make(chan tracing.ITrace, 16))
+	element := &schema.Task{}
+	act, err := newTask(element, TaskActivity)(&wiring{tracer: tracer, locator: data.NewFlowDataLocator()})
+	if err != nil {
+		t.Fatal(err)
+	}
+	task := act.(*genericTask)
+	task.NextAction(ctx, nil)
+	// wait until the request is pending: its TaskTrace has been sent and nobody answers it
+	deadline := time.After(2 * time.Second)
+	for pending := false; !pending; {
+		select {
+		case tr := <-traces:
+			_, pending = tracing.Unwrap(tr).(TaskTrace)
+		case <-deadline:
+			t.Fatal("no task request observed")
+		}
+	}
+	time.Sleep(20 * time.Millisecond)
+	answer := task.Cancel()
+	select {
+	case ok := <-answer:
+		if !ok {
+			t.Fatalf("an activity with a pending request refused to be cancelled: an interrupting boundary event cannot stop its normal flow")
+		}
+	case <-time.After(2 * time.Second):
+		t.Fatal("no answer to the cancel request")
+	}
+}
+`, ob.Name)
+			return ".", src, true
+		},
+	})
+}
